@@ -23,6 +23,11 @@ func mk(kind, name string, idx int, typ types.Type, args ...*Term) *Term {
 	sb.WriteString(kind)
 	sb.WriteByte(':')
 	sb.WriteString(name)
+	if kind == "const" {
+		// constants of different kinds must not be identified ("2" as float64 vs int)
+		sb.WriteByte('~')
+		sb.WriteByte(constClass(name, typ))
+	}
 	if (kind == "param" || kind == "freevar") && typ != nil {
 		// parameters of different functions may share a name: keep them apart by type
 		sb.WriteByte('~')
@@ -140,4 +145,31 @@ func anySub(t *Term, pred func(*Term) bool) bool {
 // mentions reports whether needle occurs inside t.
 func mentions(t, needle *Term) bool {
 	return anySub(t, func(x *Term) bool { return x == needle })
+}
+
+func constClass(name string, typ types.Type) byte {
+	if typ != nil {
+		if b, ok := typ.Underlying().(*types.Basic); ok {
+			switch {
+			case b.Info()&types.IsInteger != 0:
+				return 'i'
+			case b.Info()&types.IsFloat != 0, b.Info()&types.IsComplex != 0:
+				return 'f'
+			case b.Info()&types.IsString != 0:
+				return 's'
+			case b.Info()&types.IsBoolean != 0:
+				return 'b'
+			}
+		}
+		return 'o'
+	}
+	switch {
+	case name == "true" || name == "false":
+		return 'b'
+	case strings.HasPrefix(name, "\""):
+		return 's'
+	case strings.ContainsAny(name, "./"):
+		return 'f'
+	}
+	return 'i'
 }
